@@ -45,8 +45,8 @@ def addr_atoms(field: str, comparands: Sequence[str] = ("global ZeroAddress", f"
 
 def kind_atoms(level: str = "full") -> List[Atom]:
     out: List[Atom] = []
-    types = ["int pay", "int axfer", "int appl", "int 1", "int 4", "int 6", "int keyreg"]
-    ocs = ["int NoOp", "int UpdateApplication", "int DeleteApplication", "int 4", "int 5", "int OptIn"]
+    types = ["int pay", "int axfer", "int appl", "int 1", "int 4", "int 6", "int keyreg", "int 0", "int 7"]
+    ocs = ["int NoOp", "int UpdateApplication", "int DeleteApplication", "int 4", "int 5", "int OptIn", "int 6"]
     if level == "small":
         types = ["int pay", "int appl", "int 4"]
         ocs = ["int NoOp", "int UpdateApplication", "int 5"]
